@@ -91,8 +91,31 @@ fn oracle(letters: &[u8], s: &[u8], got: &Result<(Vec<usize>, Vec<u8>), u32>) ->
     }
 }
 
+/// the character entry point: `Symbol::from_char` (case: c05chr <alpha> <code point>)
+fn exec_chr(t: &[&str]) -> (String, Option<Result<(), String>>, bool) {
+    let cp: u32 = t[2].parse().unwrap();
+    let c = char::from_u32(cp).unwrap();
+    let letters = if t[1] == "dna" { DNA } else { PROTEIN };
+    let r: Result<usize, ()> = if t[1] == "dna" {
+        <lightmotif::abc::Nucleotide as Symbol>::from_char(c).map(|s| s.as_index()).map_err(|_| ())
+    } else {
+        <lightmotif::abc::AminoAcid as Symbol>::from_char(c).map(|s| s.as_index()).map_err(|_| ())
+    };
+    let want = if cp < 128 { letters.iter().position(|&l| l as u32 == cp) } else { None };
+    let o = match (&r, want) {
+        (Ok(i), Some(w)) if *i == w => Ok(()),
+        (Err(()), None) => Ok(()),
+        (Ok(i), _) => Err(format!("from_char(U+{:04X}) = symbol {} but the character is {}", cp, i, if want.is_some() { "another letter" } else { "not a letter of the alphabet" })),
+        (Err(()), Some(_)) => Err(format!("from_char(U+{:04X}) rejected a letter of the alphabet", cp)),
+    };
+    (match r { Ok(i) => format!("ok {}", i), Err(()) => "err".into() }, Some(o), cp >= 128 || want.is_some())
+}
+
 pub fn exec(line: &str) -> (String, Option<Result<(), String>>, bool) {
     let t: Vec<&str> = line.split_whitespace().collect();
+    if t[0] == "c05chr" {
+        return exec_chr(&t);
+    }
     assert_eq!(t[0], "enc");
     let (alpha, backend, api) = (t[1], t[2], t[3]);
     let n: usize = t[4].parse().unwrap();
@@ -198,6 +221,32 @@ pub fn generate(cfg: &Cfg) -> Vec<String> {
                 cases.push(line(alpha, "disp-avx2", "fromstr", &s2));
             }
         }
+        // the text entry points (`str::parse`, `from_str`) on the dispatcher: white space around valid
+        // text is NOT part of the alphabet and must be rejected (first offending character reported)
+        for arm in ["disp-generic", "disp-sse2", "disp-avx2"] {
+            for n in [0usize, 3, 31, 32, 40] {
+                let body = valid(&mut rng, letters, n);
+                for (pre, post) in [(" ", ""), ("", " "), ("\t", ""), ("", "\n"), ("\n", "\n"), ("", "\r\n"), ("\u{a0}", ""), ("", "\u{2003}")] {
+                    let mut s: Vec<u8> = pre.as_bytes().to_vec();
+                    s.extend_from_slice(&body);
+                    s.extend_from_slice(post.as_bytes());
+                    cases.push(line(alpha, arm, "fromstr", &s));
+                }
+            }
+        }
+        // the character entry point: every code point up to U+02FF, and characters whose LOW BYTE is a
+        // letter of the alphabet (U+0141 'Ł' has low byte 'A', …)
+        for cp in 0..0x300u32 {
+            cases.push(format!("c05chr {} {}", alpha, cp));
+        }
+        for &l in letters {
+            for hi in [0x1u32, 0x2, 0x20, 0xff, 0x100, 0x1f6] {
+                let cp = (hi << 8) | l as u32;
+                if char::from_u32(cp).is_some() {
+                    cases.push(format!("c05chr {} {}", alpha, cp));
+                }
+            }
+        }
         // random stream
         let maxlen = if cfg.thorough { 70_000 } else { 5_000 };
         let count = (if cfg.thorough { 3_000 } else { 250 }) * cfg.boost;
@@ -209,7 +258,8 @@ pub fn generate(cfg: &Cfg) -> Vec<String> {
                 s[o] = rng.below(256) as u8;
             }
             let b = *rng.pick(BACKENDS);
-            cases.push(line(alpha, b, *rng.pick(&apis), &s));
+            let api = if b.starts_with("disp-") && rng.chance(1, 3) { "fromstr" } else { *rng.pick(&apis) };
+            cases.push(line(alpha, b, api, &s));
         }
     }
     cases
@@ -222,7 +272,13 @@ pub fn run(cfg: &Cfg) {
         out.announce(c);
         let (ans, o, nt) = exec(c);
         let t: Vec<&str> = c.splitn(5, ' ').collect();
+        if t[0] == "c05chr" {
+            out.stat("from_char");
+            out.case(c, &ans, o, nt);
+            continue;
+        }
         out.stat(&format!("{}/{}", t[1], t[2]));
+        out.stat(&format!("api/{}", t[3]));
         out.stat(if ans.starts_with("ok") { "outcome/ok" } else if ans.starts_with("err") { "outcome/err" } else { "outcome/panic" });
         if ans == "panic" {
             out.panics += 1;
